@@ -2,7 +2,7 @@
 //! Reads the *compiled* statics through the cfg(unic_locale_verif) re-exports.
 #![cfg(feature = "likely")]
 
-use crate::likely::{Dir, Layout, Likely};
+use crate::likely::{Dir, Layout, Likely, Triple};
 use crate::props::triples::*;
 use crate::run::*;
 use proptest::prelude::*;
@@ -11,7 +11,7 @@ use std::collections::{BTreeMap, BTreeSet};
 use unic_langid_impl::likelysubtags::verif_tables as tb;
 use unic_langid_impl::verif_layout_table as lt;
 
-pub const RULE: &str = "Domain: every entry of the six compiled likely-subtags statics (LANG_ONLY, LANG_REGION, LANG_SCRIPT, SCRIPT_REGION, SCRIPT_ONLY, REGION_ONLY), CLDR_VERSION and the four character-direction constants, read through the cfg(unic_locale_verif) re-export (exhaustive, about 8 270 entries); plus proptest-generated (language, script, region) look-ups. Oracle: an independent re-derivation from unic-langid-impl/data/likelySubtags.json and the layout.json files at run time: per table the decoded key -> value map equals the JSON sub-map of that key shape in both directions (one entry per CLDR key, none extra, the CLDR value; the table generator's documented dropping of a ZZ region is applied to the expected value); keys strictly increasing in the (u64, u32) tuple order the binary search uses, and a binary search with the library's own key projection finds every entry at its index; every stored integer decodes (little-endian, zero padded) to a canonical-case well-formed language / script / region subtag and survives from_raw_unchecked + as_str unchanged; CLDR_VERSION == _cldrVersion; the direction constants equal the script / language sets derived from the layout files. Generated part: a linear scan of the decoded compiled tables (the cascade of C06) must agree with likelysubtags::maximize. Non-trivial = every table entry (distinct by construction) and every generated look-up that hits an entry (hash set).";
+pub const RULE: &str = "Domain: every entry of the six compiled likely-subtags statics (LANG_ONLY, LANG_REGION, LANG_SCRIPT, SCRIPT_REGION, SCRIPT_ONLY, REGION_ONLY), CLDR_VERSION and the four character-direction constants, read through the cfg(unic_locale_verif) re-export (exhaustive, about 8 270 entries); plus look-ups: every (language, script, -), (language, -, region) and (und, script, region) over an extended subtag universe (all two-letter and many three-letter languages, neighbours of the known scripts, every well-formed region), full triples around every two-component key (thorough: the whole core universe) and proptest-generated ones. Oracle: an independent re-derivation from unic-langid-impl/data/likelySubtags.json and the layout.json files at run time: per table the decoded key -> value map equals the JSON sub-map of that key shape in both directions (one entry per CLDR key, none extra, the CLDR value; the table generator's documented dropping of a ZZ region is applied to the expected value); keys strictly increasing in the (u64, u32) tuple order the binary search uses, and a binary search with the library's own key projection finds every entry at its index; every stored integer decodes (little-endian, zero padded) to a canonical-case well-formed language / script / region subtag and survives from_raw_unchecked + as_str unchanged; CLDR_VERSION == _cldrVersion; the direction constants equal the script / language sets derived from the layout files. Look-up part: a hash index built row by row from the compiled tables (no ordering assumption), with the cascade of C06 on top, must agree with likelysubtags::maximize on the components the query left open. Non-trivial = every table entry (distinct by construction) and every generated look-up that hits an entry (hash set).";
 
 type V = (Option<u64>, Option<u32>, Option<u32>);
 
@@ -390,43 +390,67 @@ pub fn check_layout(cfg: &Cfg, st: &mut Stats) {
     st.subspace("every entry of the four character-direction constants, and every derived script / language against them", n, true);
 }
 
-/// linear scan of the compiled tables with the cascade of C06 (model of the lookup)
+/// hash index over the COMPILED tables (built once, row by row, no ordering assumption) with
+/// the cascade of C06 on top: the model of the lookup
+struct Index {
+    l: std::collections::HashMap<u64, V>,
+    lr: std::collections::HashMap<(u64, u32), V>,
+    ls: std::collections::HashMap<(u64, u32), V>,
+    sr: std::collections::HashMap<(u32, u32), V>,
+    s: std::collections::HashMap<u32, V>,
+    r: std::collections::HashMap<u32, V>,
+}
+fn index() -> &'static Index {
+    static IX: std::sync::OnceLock<Index> = std::sync::OnceLock::new();
+    IX.get_or_init(|| Index {
+        // first occurrence wins, as in a scan from the top
+        l: tb::LANG_ONLY.iter().rev().filter(|e| dec64(e.0) != b"und").map(|e| (e.0, e.1)).collect(),
+        lr: tb::LANG_REGION.iter().rev().map(|e| ((e.0, e.1), e.2)).collect(),
+        ls: tb::LANG_SCRIPT.iter().rev().map(|e| ((e.0, e.1), e.2)).collect(),
+        sr: tb::SCRIPT_REGION.iter().rev().map(|e| ((e.0, e.1), e.2)).collect(),
+        s: tb::SCRIPT_ONLY.iter().rev().map(|e| (e.0, e.1)).collect(),
+        r: tb::REGION_ONLY.iter().rev().map(|e| (e.0, e.1)).collect(),
+    })
+}
 fn scan_max(l: Option<u64>, s: Option<u32>, r: Option<u32>) -> Option<V> {
     if l.is_some() && s.is_some() && r.is_some() {
         return None;
     }
+    let ix = index();
     let fill = |v: &V| -> V { (l.or(v.0), s.or(v.1), r.or(v.2)) };
     if let Some(l) = l {
         if let Some(r) = r {
-            if let Some(e) = tb::LANG_REGION.iter().find(|e| e.0 == l && e.1 == r) {
-                return Some(fill(&e.2));
+            if let Some(e) = ix.lr.get(&(l, r)) {
+                return Some(fill(e));
             }
         }
         if let Some(s) = s {
-            if let Some(e) = tb::LANG_SCRIPT.iter().find(|e| e.0 == l && e.1 == s) {
-                return Some(fill(&e.2));
+            if let Some(e) = ix.ls.get(&(l, s)) {
+                return Some(fill(e));
             }
         }
-        // the bare `und` row of LANG_ONLY is not reachable with a present language
-        return tb::LANG_ONLY.iter().find(|e| e.0 == l && dec64(e.0) != b"und").map(|e| fill(&e.1));
+        return ix.l.get(&l).map(fill);
     }
     if let Some(s) = s {
         if let Some(r) = r {
-            if let Some(e) = tb::SCRIPT_REGION.iter().find(|e| e.0 == s && e.1 == r) {
-                return Some(fill(&e.2));
+            if let Some(e) = ix.sr.get(&(s, r)) {
+                return Some(fill(e));
             }
         }
-        return tb::SCRIPT_ONLY.iter().find(|e| e.0 == s).map(|e| fill(&e.1));
+        return ix.s.get(&s).map(fill);
     }
     if let Some(r) = r {
-        return tb::REGION_ONLY.iter().find(|e| e.0 == r).map(|e| fill(&e.1));
+        return ix.r.get(&r).map(fill);
     }
     None
 }
 
 pub fn check_lookup(h: &Handles, d: &Dressed, st: &mut Stats) {
+    check_lookup_triple(h, h.dressed_triple(d), st, Count::Hash)
+}
+
+pub fn check_lookup_triple(h: &Handles, t: Triple, st: &mut Stats, mode: Count) {
     st.eval();
-    let t = h.dressed_triple(d);
     let lib = h.lib(t);
     let l: Option<u64> = lib.0.into();
     let s: Option<u32> = lib.1.map(Into::into);
@@ -453,7 +477,7 @@ pub fn check_lookup(h: &Handles, d: &Dressed, st: &mut Stats) {
     }
     if want.is_some() {
         st.class("lookup:hits-a-row");
-        st.count(Count::Hash, hash_triple(t), || h.case(t));
+        st.count(mode, hash_triple(t), || h.case(t));
     }
 }
 
@@ -462,6 +486,9 @@ pub fn run(cfg: &Cfg) -> Stats {
     check_tables(cfg, &mut st);
     check_layout(cfg, &mut st);
     if let Ok(h) = Handles::load(cfg) {
+        // every one- and two-component query (and, thorough, the whole core universe): the
+        // library's binary search must find exactly the rows a hash index of the same tables finds
+        st = st.merge(sweep(cfg, &h, "c18", &|t, st, mode| check_lookup_triple(&h, t, st, mode)));
         let n = cfg.pick(400_000, 4_000_000);
         let s = run_strategy(&s_dressed(&h), cfg.seed, "c18-lookups", n, |d, st| check_lookup(&h, d, st));
         st = st.merge(s);
@@ -478,7 +505,7 @@ pub fn replay(case: &Value, st: &mut Stats) {
                 if let Some(t) = h.from_case(case) {
                     // rebuild a Dressed that denotes exactly t
                     let d = Dressed { kind: 9, pick: 0, l: t.l, s: t.s, r: t.r, mask: 0, variants: vec![], ext: None };
-                    check_lookup(&h, &d, st);
+                    check_lookup_triple(&h, t, st, Count::No);
                 }
             }
         }
